@@ -27,6 +27,8 @@ pub struct Profile {
     pub w_config: u32,
     pub w_dropglobal: u32,
     pub w_motif: u32,
+    /// saturation motif (handle pools up to the documented limits); 0 = never
+    pub w_bulk: u32,
     // callback scripts
     pub fin_pct: u32,
     pub fin_len: usize,
@@ -63,6 +65,7 @@ impl Profile {
             w_config: 2,
             w_dropglobal: 3,
             w_motif: 4,
+            w_bulk: 1,
             fin_pct: 35,
             fin_len: 2,
             resurrect_pct: 50,
@@ -450,6 +453,73 @@ impl<'a> Gen<'a> {
         }
     }
 
+    /// Handle pools up to the documented limits (16382 Cc / 32767 Weak per allocation), attempts beyond them through
+    /// both acquisition routes, hysteresis, then release: what the object looks like afterwards is judged by the same
+    /// oracles as everything else (counts, finalization, reclamation).
+    pub fn saturate(&mut self, out: &mut Vec<Act>) {
+        let r = self.reg();
+        if self.rng.chance(2, 3) {
+            out.push(Act::New { dst: Dst::R(r), spec: Box::new(self.spec(0)) });
+        }
+        let wr = self.rng.idx(NWR) as u8;
+        let with_weak = self.rng.chance(2, 3);
+        if with_weak {
+            out.push(Act::Downgrade { src: Src::R(r), dst: WLoc::WR(wr) });
+        }
+        if self.rng.chance(1, 3) {
+            // a self edge: the object is also part of a cycle
+            out.push(Act::Clone { src: Src::R(r), dst: Dst::Slot(Own::R(r), false, 0) });
+        }
+        let weak_side = with_weak && self.rng.chance(1, 3);
+        if weak_side {
+            let via = if self.rng.chance(1, 2) { Some(WLoc::WR(wr)) } else { None };
+            out.push(Act::BulkWeak { src: Src::R(r), n: 32760, via });
+            out.push(Act::BulkWeak { src: Src::R(r), n: 40, via: if self.rng.chance(1, 2) { Some(WLoc::WR(wr)) } else { None } });
+            out.push(Act::BulkWeak { src: Src::R(r), n: 3, via: if via.is_some() { None } else { Some(WLoc::WR(wr)) } });
+            if self.rng.chance(1, 2) {
+                out.push(Act::BulkWeakDrop { k: 1 + self.rng.idx(3) as u16 });
+                out.push(Act::BulkWeak { src: Src::R(r), n: 6, via: None });
+            }
+            if self.rng.chance(1, 2) {
+                out.push(Act::Collect);
+            }
+        } else {
+            let via = if with_weak && self.rng.chance(1, 2) { Some(WLoc::WR(wr)) } else { None };
+            out.push(Act::Bulk { src: Src::R(r), n: 16370, via });
+            out.push(Act::Bulk { src: Src::R(r), n: 30, via: if with_weak && self.rng.chance(1, 2) { Some(WLoc::WR(wr)) } else { None } });
+            // beyond the limit through the other route
+            out.push(Act::Bulk { src: Src::R(r), n: 3, via: if via.is_some() || !with_weak { None } else { Some(WLoc::WR(wr)) } });
+            if self.rng.chance(1, 2) {
+                out.push(Act::BulkDrop { k: 1 + self.rng.idx(3) as u16 });
+                out.push(Act::Bulk { src: Src::R(r), n: 6, via: None });
+            }
+            if self.rng.chance(1, 2) {
+                out.push(Act::Collect);
+            }
+            if self.rng.chance(1, 2) {
+                out.push(Act::Drop { dst: Dst::R(r) });
+            }
+        }
+        // a few ordinary operations while the pools are full
+        for _ in 0..self.rng.idx(3) {
+            let a = match self.rng.idx(4) {
+                0 => Act::MarkAlive { src: Src::R(r) },
+                1 => Act::Collect,
+                2 => Act::Upgrade { src: WLoc::WR(wr), dst: Dst::Discard },
+                _ => Act::Query,
+            };
+            out.push(a);
+        }
+        match self.rng.idx(3) {
+            0 => out.push(Act::BulkDrop { k: u16::MAX }),
+            1 => {
+                out.push(Act::BulkDrop { k: 16000 });
+                out.push(Act::BulkWeakDrop { k: 32000 });
+            }
+            _ => {}
+        }
+    }
+
     fn weak_op(&mut self) -> Act {
         let neutral = self.p.weak_neutral;
         match self.rng.idx(10) {
@@ -469,7 +539,7 @@ impl<'a> Gen<'a> {
         let p = self.p;
         let weights = [
             p.w_new, p.w_cyclic, p.w_clone, p.w_take, p.w_drop, p.w_set, p.w_clear, p.w_mark, p.w_weak, p.w_unwrap, p.w_finagain,
-            p.w_collect, p.w_quiet, p.w_cleaner, p.w_config, p.w_dropglobal, p.w_motif,
+            p.w_collect, p.w_quiet, p.w_cleaner, p.w_config, p.w_dropglobal, p.w_motif, p.w_bulk,
         ];
         match self.rng.weighted(&weights) {
             0 => {
@@ -530,7 +600,15 @@ impl<'a> Gen<'a> {
             }
             14 => ops.push(Act::Config { auto: self.rng.chance(3, 4), percent: self.rng.idx(PERCENTS.len()) as u8, buffered: self.rng.idx(BUFFERED.len()) as u8 }),
             15 => ops.push(Act::Drop { dst: Dst::G(self.glob()) }),
-            _ => self.motif(ops),
+            16 => self.motif(ops),
+            _ => {
+                // rare: most draws of this (already low) weight end up as a plain clone
+                if self.rng.chance(1, 6) {
+                    self.saturate(ops);
+                } else {
+                    ops.push(Act::Clone { src: self.src(), dst: self.dst() });
+                }
+            }
         }
     }
 
